@@ -46,7 +46,32 @@ Decisions (explicit, not silent):
   * [action_heartbeat] batch_size is not applied by the code (`query.limit(limit)` result discarded in
     get_running_expired_sync_action_executions): all expired rows are handled in one pass.  Modelled as is.
 
-Self-test mutations (each alone, scratch worktree, each gives a VIOLATION): see SELFTEST at the end.
+Self-test mutations (each applied alone to a scratch worktree of /repo, `VERIF_REPO=/tmp/wt_C20 ./check C20`, quick tier;
+every one gives VIOLATION lines with a replayable failing input; first signatures in brackets):
+  M1  db api: `last_heartbeat < expiration_time` -> `<=`                          [select:spurious:fresh, expiry:spurious:fresh, corpus:boundary]
+  M2  checker: context set inside the loop `is_admin=True` -> `False`             [expiry:missed] (needs auth_enable runs)
+  M3  checker: `continue` on a missing parent -> `raise`                          [pass:exception, expiry:missed, corpus:taskless-first-in-batch]
+  M4  db api: drop `filter_by(is_sync=True)`                                      [select:spurious:async, expiry:spurious:async]
+  M5  db api: drop the `state == RUNNING` filter                                  [select:spurious:finished, pass:exception]
+  M6  checker: `seconds=max_missed * interval` -> `seconds=interval`              [select:spurious:fresh, expiry:spurious:fresh]
+  M7  models.py: last_heartbeat default without first_heartbeat_timeout           [expiry:spurious:fresh, corpus:boundary]
+  M8  engine.process_action_heartbeats: `pass` -> `break` on an unknown id        [beat:lost]
+  M9  RegularAction.complete: remove the "already completed" guard                [late-result:acted-again, notified-twice]
+  M10 integrity: `all(...)` -> `any(...)` over the children                       [integrity:premature]
+  M11 integrity: `check_after_seconds < 0` -> `<= 0` (delay 0 disables)           [integrity:not-recovered, integrity:not-rescheduled]
+  M12 integrity: drop the self re-scheduling                                      [integrity:not-rescheduled]
+  M13 integrity: `interval > check_after_seconds` -> `>=`                         [integrity:premature]
+  M14 checker.start: `interval and max_missed` -> `or`                            [service:disabled-but-runs, expiry:spurious:disabled]
+  M15 checker.start: `wait_time = interval * max_missed` -> `interval`            [service:first-pass]
+  M16 sender.add_action: no immediate heartbeat                                   [sender:beats]
+  M17 checker: sets ERROR on the row instead of action_handler.on_action_complete [error-path:differs]
+  M18 integrity: `delta < check_after_seconds` -> `<=`                            [integrity:not-recovered]
+  M19 db api: heartbeat update only for RUNNING rows                              [beat:lost]
+  M20 db api: `query = query.limit(limit)` (the limit really applied)             [expiry:missed, corpus:taskless-first-in-batch: task-less
+      rows then occupy the batch for ever]
+M2 was missed by the first version (all runs had auth_enable=False, where project scoping is off): half of the op-sequence
+runs now switch [pecan] auth_enable on and pending messages carry their sender's context.  M18 was caught by a single
+scenario only: check times are now drawn from the first instant at which recovery is due (-1/0/+1).
 """
 import datetime
 import json
@@ -1536,23 +1561,30 @@ def run_jobs(ctx, jobs, in_process=False):
 
 
 def evaluate(ctx, per_suite):
+    import time
     for suite, items in per_suite.items():
         if not items:
             continue
+        t0 = time.time()
         res = core.coq_eval('c20' + suite, IMPORTS, [e for e, _ in items], chunk=40 if suite in ('ops', 'corpus') else 100)
         COMPARE[suite](ctx, items, res)
+        ctx.cov['suites'].setdefault(suite, {})['model_eval_s'] = round(time.time() - t0, 1)
 
 
 def correspondence_and_oracle(ctx):
-    n_ops = ctx.n(96, 2400)
-    n_int = ctx.n(96, 2000)
-    n_sel = ctx.n(160, 3200)
+    n_ops = ctx.n(96, 960)
+    n_int = ctx.n(96, 960)
+    n_sel = ctx.n(160, 1600)
     k = core.NPROC
     jobs = [('corpus', {}), ('service', {}), ('sender', {})]
     jobs += [('ops', {'keys': c}) for c in chunks(['%s/ops/%d' % (ctx.seed, i) for i in range(n_ops)], 2 * k)]
     jobs += [('integrity', {'keys': c}) for c in chunks(['%s/integrity/%d' % (ctx.seed, i) for i in range(n_int)], 2 * k)]
     jobs += [('select', {'sets': c}) for c in chunks(range(n_sel), k)]
-    evaluate(ctx, run_jobs(ctx, jobs))
+    import time
+    t0 = time.time()
+    per_suite = run_jobs(ctx, jobs)
+    ctx.cov['real_runs_s'] = round(time.time() - t0, 1)
+    evaluate(ctx, per_suite)
 
 
 def engine_traces(ctx):
@@ -1609,8 +1641,3 @@ def replay(obj):
         print('FAIL %s: %s' % (f['signature'], f['what']))
     print('replayed %s: %d oracle failure(s)' % (suite, len(ctx.failures)))
     return 1 if ctx.failures else 0
-
-
-SELFTEST = """
-(filled in after the self-test runs, see the end of the file)
-"""
